@@ -321,6 +321,11 @@ def finish(prop, tier, seed, t0, proof, coverage, violations, assumptions, level
                            "rec": {"kind": "obligation", "theorem": f["theorem"]},
                            "broken": f["theorem"], "no_input": True, "detail": f})
     known, unknown = classify(prop, violations)
+    try:
+        json.dump([{k: v for k, v in x.items() if k != "detail"} for x in violations],
+                  open(os.path.join(WORKROOT, f"all_violations_{prop}.json"), "w"), indent=1, default=str)
+    except Exception:
+        pass
     # an obligation failure without a concrete failing input is reported only if no concrete
     # violation explains it
     concrete = [v for v in unknown if not v.get("no_input")]
